@@ -58,7 +58,7 @@ def stepOpt (ts : List String) : Option String :=
       if elem == "pod" then pure s!"out {showElems out} cw - mw - live 0 spec {sp}"
       else
         let live : Int := (r.constructed : Int) - r.destroyed
-        pure s!"out {showElems out} cw {showWinsN r.copyWindows} mw {showWinsI r.mergeWindows} live {live} spec {sp}"
+        pure s!"out {showElems out} cw {showWinsN r.copyWindows} mw {showWinsN r.mergeWindows} live {live} spec {sp}"
   | _ => none
 
 def step (_ : Unit) (ts : List String) : Unit × String :=
